@@ -22,6 +22,7 @@ ITEM = {
             "pub struct MockT; pub mod Mk { pub struct f; }"),
     "trait": ("pub trait T {\n    fn m(&self, a: i32) -> i32;\n    fn n(&self) -> u8;\n}",
               "pub struct MockT; pub mod Mk { pub struct m; } pub mod TMock { pub struct m; }"),
+    "marker": ("pub trait T {}", "pub struct MockT; pub mod Mk { } pub mod TMock { }"),
 }
 
 
@@ -39,7 +40,7 @@ def render(c):
     # the requested trait visibility rotates over the points of the lattice: gating must not depend on it
     vis = ["pub ", "", "pub(crate) "][int(c["case"]) % 3]
     text = c["text"]
-    if i["target"] == "trait":
+    if i["target"] in ("trait", "marker"):
         item = item.replace("pub trait T", vis + "trait T", 1)
     elif text.startswith("pub T"):
         text = vis + text[4:]
@@ -156,7 +157,7 @@ def main():
     chk.cov["distinct_nontrivial"] = sum(1 for e in events if e["obs"]["expanded"])
     chk.cov["built_and_run_in_both_configurations"] = sum(1 for e in events if e["obs"]["built"])
     chk.cov["rule"] = ("every point of {entrait, entrait_export} x {feature on, off} x {unimock, mockall, export: absent/true/false} x "
-                       "{mock_api absent/present} x {fn, mod, trait}; non-trivial = accepted by the macro; each crate built and run "
+                       "{mock_api absent/present} x {fn, fn with concrete deps, mod, trait, method-less trait}, the requested trait visibility rotating over pub / none / pub(crate); non-trivial = accepted by the macro; each crate built and run "
                        "as binary (not(test)) and as test harness (cfg(test))")
     chk.cov["exhaustive"] = True
     vf.report_drift(chk, drift, lambda d: f"attr=({byid[d['case']]['text']}) in={byid[d['case']]['in']} obs={ev[d['case']]['obs']}")
